@@ -23,13 +23,12 @@ CLAUSES = (
     'the expanded expression text for arbitrary graph strings.')
 
 
-def _family_map_rules(c):
+def _family_map_rules(c, R='C15.family-map'):
     """The member table handed to the graph parser lists, for every family
     but root, *all* its task descendants in the full (C3-linearised, multiple
     inheritance) ancestry -- a task that belongs to a family only through a
     secondary parent is a member."""
     from rules._shared import resolved
-    R = 'C15.family-map'
     lg = c.func('config', 'WorkflowConfig._load_graph')
     gp = [n for n in c.calls(lg, 'GraphParser')]
     c.floor(R, f'{lg.fq} :: GraphParser(..)', len(gp), 1)
@@ -270,6 +269,16 @@ def check(c):
             len(fam_src), 1)
     for a in fam_src:
         c.guard('C15.rhs-members', a, ['name in self.family_map'], ct)
+        # every family node is expanded, offset or not (the declared
+        # optionality reaches the members through this loop, too)
+        c.guard_only('C15.rhs-members', a, [
+            'name in self.family_map', 'm',
+            'self.__class__.REC_RHS_NODE.match(right)'], ct,
+            what='every family node is expanded;')
+    for a in asg:
+        if a not in fam_src:
+            c.guard('C15.rhs-members', a, ['!(name in self.family_map)'], ct,
+                    what='only a non-family node stands for itself;')
     for lp in mem_loops:
         mem = norm(lp.target)
         st = c.find(lp, f'self._set_triggers({mem}, *_)')
@@ -287,6 +296,10 @@ def check(c):
 
 
 VARIANTS = [
+    ('offset-family-not-expanded', 'cylc/flow/graph_parser.py',
+     '                rhs_members = self.family_map[name]\n',
+     '                rhs_members = [] if offset else self.family_map[name]\n',
+     'C15.rhs-members'),
     ('members-first-parent-only', 'cylc/flow/config.py',
      "            for family, tasks in self.runtime['descendants'].items()",
      "            for family, tasks in self.get_first_parent_descendants().items()",
